@@ -2440,3 +2440,28 @@ Proof.
   exists fa, fl, fb, r.
   exact (conj Wa (conj Wl (conj Wb (conj Ee (conj Ra (conj Rl (conj Rb (conj (D _ _ Wa) (conj (D _ _ Wl) (D _ _ Wb)))))))))).
 Qed.
+
+(* point clouds whose reader list is in the reader's own order (per-vertex s/t): whole file, given the placement *)
+Lemma placed_in bin gr p : placed bin gr p -> In (fst p) gr.
+Proof. intros (G1 & G2 & -> & _). apply in_or_app. right. left. reflexivity. Qed.
+
+Theorem ply_points_placed o f m PL : o_writers o = default_writers -> wf_mesh m = true -> w_topo m = TPoint -> (0 < w_n m)%nat ->
+  readers_placed (is_bin f) (rview o m) PL -> keys_ok [] (map fst PL) = true ->
+  (f = ASCII -> forallb ascii_ok (rview o m) = true /\ vertex_props (rview o m) <> []) ->
+  exists file, write o f m = Ok file /\
+    read_mesh file = Ok {| m_topo := TPoint; m_idx := iota (w_n m); m_attrs := map gattr (map fst PL) |}.
+Proof.
+  intros Ho Hwf Ht Hn Hrp Hk Ha. destruct (wf_faces m Hwf) as (_ & _ & Hat).
+  pose proof (effective_good o m Ho Hat) as Hg.
+  destruct (rview_same (w_n m) m (effective_writers o m) Hg) as (P & Gd & Wd).
+  destruct (closed_same f m (rview o m) (map (group_of m) (effective_writers o m)) P Wd) as [Eh Eb].
+  exists {| pf_header := header_lines f (header_elems (map (group_of m) (effective_writers o m)) m);
+            pf_body := closed_body f (map (group_of m) (effective_writers o m)) m |}. split.
+  - apply write_closed_default; [exact Ho|exact Hwf|]. intros E. right. intros Hnil. destruct (Ha E) as [_ Hne]. apply Hne.
+    unfold rview. rewrite P, Hnil. reflexivity.
+  - rewrite <- Eh, <- Eb. rewrite (read_mesh_pointcloud_placed f (rview o m) PL m Ht Gd Hrp).
+    + rewrite attrs_of_placed; [reflexivity|exact Hn| |exact Hk].
+      apply Forall_forall. intros g Hg'. apply in_map_iff in Hg'. destruct Hg' as (p & <- & Hp).
+      destruct Hrp as [_ Hpl]. rewrite Forall_forall in Hpl, Gd. destruct (Gd _ (placed_in _ _ _ (Hpl p Hp))) as (_ & L & _). exact L.
+    + intros E. destruct (Ha E) as [A1 A2]. split; [exact A1|right; exact A2].
+Qed.
